@@ -62,7 +62,10 @@ def gen_and_judge(ctx, pid, profile, kind, traces, ops, queries, workdir, tag):
     judge = build.judge_exe()
     workdir.mkdir(parents=True, exist_ok=True)
     nchunks = min(NPROC, max(1, traces // 4))
-    per = (traces + nchunks - 1) // nchunks
+    # the judge holds one trace file in memory (~20x its size): at most 16 traces per file, so that NPROC judges of a
+    # thorough run (1000 traces) stay near 1 GB each instead of 4-5 GB (the kernel killed them on a 62 GB machine)
+    per = min(16, (traces + nchunks - 1) // nchunks)
+    nchunks = (traces + per - 1) // per
     jobs = []
     for c in range(nchunks):
         first = c * per
